@@ -4,15 +4,17 @@ import time
 from framework.checklib import CorrResult
 from framework import coqrun
 from harness import gen, tseytincorr as tc
-from translator import t1_operators, t2_tseytin, t9_circuit_core, t13_tseytin_alg
+from translator import t1_operators, t2_tseytin, t9_circuit_core, t13_tseytin_alg, t27_sat_query
 
 ID = 'C05'
-TRANSLATORS = [t1_operators.translate, t2_tseytin.translate, t9_circuit_core.translate, t13_tseytin_alg.translate]
+TRANSLATORS = [t1_operators.translate, t2_tseytin.translate, t9_circuit_core.translate, t13_tseytin_alg.translate,
+               t27_sat_query.translate]
 PROPERTY_FILE = 'Properties/C05.v'
 THEOREMS = ['C05_template_exact', 'C05_template_total', 'C05_reduction_exact',
             'C05_default_selects_all_outputs', 'C05_returns_on_wellformed', 'C05_fuel_adequate',
             'C05_result_independent_of_fuel', 'C05_circuit_sat_model', 'C05_circuit_unsat',
-            'C05_circuit_sat_answer', 'C05_algorithm_regenerated',
+            'C05_circuit_sat_answer', 'C05_algorithm_regenerated', 'C05_query_regenerated',
+            'C05_query_hands_whole_formula',
             'C05_ex_hypotheses', 'C05_ex_xor3', 'C05_ex_solver', 'C05_ex_query']
 PARTIAL = {}
 LEVEL_TEXT = ('proved for the Gallina model, for all circuits, output selections and total input assignments: every '
@@ -26,8 +28,11 @@ LEVEL_TEXT = ('proved for the Gallina model, for all circuits, output selections
               'defaultdict, the input numbering loop, the default selection, the output loop and its unit clauses, '
               'statement by statement over the model state, calling the regenerated Circuit accessors of T9) and '
               'proving it equal to the hand model for ALL circuits, selections and fuels (C05_algorithm_regenerated, '
-              'no side condition), and by EXACT clause-list correspondence of tseytin_transformation on generated '
-              'circuits x selections')
+              'no side condition), by regenerating the QUERY glue (T27: sat.is_satisfiable / is_circuit_satisfiable, '
+              'Cnf.from_circuit, Cnf.get_raw; fail-closed grammar: the raw clause list reaches the solver once and whole, '
+              'answer and model come back unchanged; C05_query_regenerated, C05_query_hands_whole_formula), and by EXACT '
+              'clause-list correspondence of tseytin_transformation on generated circuits x selections; the query is also '
+              'driven on formulas of 1 000 - 33 000 clauses whose satisfiability is known by construction')
 LEVEL_NOTE = ('Coq kernel + vm_compute; translators T1, T2, T9 (get_gate, output_at_index), T13 (algorithm; its fixed prelude models '
               'collections.defaultdict.__getitem__ and the three closure variables as the record tstate; fuel = recursion depth of process_gate; parameter types are read from the annotations); correspondence harness and pysat shim; hypotheses of the '
               'theorems: input list duplicate-free and exactly the INPUT gates, operand counts accepted by the '
@@ -42,7 +47,10 @@ TECHNIQUE = ('Coq proof: per-template exactness over the regenerated templates (
              'shared state as state-passing functions, the self-recursive closure as a Fixpoint on fuel, loops as foldM / '
              'mapS) + equality proof with the hand model by induction on the fuel; vm_compute correspondence of exact clause lists; '
              'direct oracle by bit-parallel enumeration of all extensions / unit propagation / shim solver')
-TRUSTED = ['translator T13 (translator/t13_tseytin_alg.py): statement-level translation of tseytin_transformation and its '
+TRUSTED = ['translator T27 (translator/t27_sat_query.py): accepts exactly one statement shape per function of the query '
+           'glue and is trusted for the meaning it gives to it (pysat CNF(from_clauses=l) holds l, append_formula adds every '
+           'clause, solve() / get_model() are the solver of the model)',
+           'translator T13 (translator/t13_tseytin_alg.py): statement-level translation of tseytin_transformation and its '
            'closures; trusted for the meaning it gives to Python statements (state-passing reading of the closure variables, '
            'collections.defaultdict.__getitem__, evaluation order); its output is also covered by the exact clause-list '
            'correspondence, because it is proved equal to the model that the correspondence evaluates',
